@@ -498,16 +498,8 @@ func checkC13Constructor(p *Prog, r *Report, rMal, rAcc *Rule, vf *ssa.Function)
 			/* A whole-array slice of a fixed-size copy of the pin:
 			[N]byte(pin)[:], with len(pin) == N established by
 			malformed-refused. */
-			if al, isAl := resolveFree(sl.X).(*ssa.Alloc); isAl {
-				if sts := storesTo(al); 1 == len(sts) {
-					if ld, isLd := sts[0].Val.(*ssa.UnOp); isLd && token.MUL == ld.Op {
-						if cv, isCv := ld.X.(*ssa.SliceToArrayPointer); isCv && resolveCell(cv.X) == ssa.Value(want) {
-							if at, isArr := al.Type().Underlying().(*types.Pointer).Elem().Underlying().(*types.Array); isArr && 32 == at.Len() {
-								pinWhole = true
-							}
-						}
-					}
-				}
+			if src, n := arraySource(sl.X, 0); nil != src && 32 == n && resolveCell(src) == ssa.Value(want) {
+				pinWhole = true
 			}
 		}
 	}
@@ -661,4 +653,62 @@ func flowsFrom(v, src ssa.Value) bool {
 		}
 	}
 	return true
+}
+
+// arraySource: ptr points at an array which is a whole copy of a slice:
+// [N]T(src), *(*[N]T)(src), or "var a [N]T; copy(a[:], src)" (which copies
+// all of src when len(src) == N), possibly copied again as a value.  Returns
+// src and N.
+func arraySource(ptr ssa.Value, depth int) (ssa.Value, int64) {
+	if depth > 4 {
+		return nil, 0
+	}
+	ptr = resolveFree(ptr)
+	if cv, ok := ptr.(*ssa.SliceToArrayPointer); ok {
+		if at, isArr := cv.Type().Underlying().(*types.Pointer).Elem().Underlying().(*types.Array); isArr {
+			return cv.X, at.Len()
+		}
+		return nil, 0
+	}
+	al, ok := ptr.(*ssa.Alloc)
+	if !ok {
+		return nil, 0
+	}
+	at, ok := al.Type().Underlying().(*types.Pointer).Elem().Underlying().(*types.Array)
+	if !ok {
+		return nil, 0
+	}
+	/* Everything which writes the array. */
+	var src ssa.Value
+	writes := 0
+	for _, f := range withAnons(al.Parent()) {
+		eachInstr(f, func(i ssa.Instruction) {
+			switch x := i.(type) {
+			case *ssa.Store:
+				if resolveFree(x.Addr) == ssa.Value(al) {
+					writes++
+					if ld, isLd := x.Val.(*ssa.UnOp); isLd && token.MUL == ld.Op {
+						if s2, n := arraySource(ld.X, depth+1); nil != s2 && n == at.Len() {
+							src = s2
+						}
+					}
+				} else if ia, isIA := x.Addr.(*ssa.IndexAddr); isIA && resolveFree(ia.X) == ssa.Value(al) {
+					writes += 2 /* an element is written separately */
+				}
+			case *ssa.Call:
+				if b, isB := x.Common().Value.(*ssa.Builtin); isB && "copy" == b.Name() {
+					if sl, isSl := x.Common().Args[0].(*ssa.Slice); isSl && resolveFree(sl.X) == ssa.Value(al) {
+						writes++
+						if nil == sl.Low && nil == sl.High {
+							src = x.Common().Args[1]
+						}
+					}
+				}
+			}
+		})
+	}
+	if 1 != writes || nil == src {
+		return nil, 0
+	}
+	return src, at.Len()
 }
